@@ -350,6 +350,21 @@ def impl(case):
     return _impl_m(case)
 
 
+def _valence_py(tpl, rule, inv):
+    """plain-networkx reading of own_valence_okb: every hydrogen atom of the (inverted, when backwards) template has at most as many bonds to
+    atoms of the prepared rule on its reactant side as on its product side"""
+    gs, hs = (1, 0) if inv else (0, 1)
+    kept = set(rule.rc.raw.nodes)
+    for h, d in tpl.nodes(data=True):
+        if d["typesGH"][gs][0] != "H":
+            continue
+        dg = sum(1 for k in tpl.neighbors(h) if k in kept and k != h and tpl[h][k]["order"][gs] > 0)
+        dh = sum(1 for k in tpl.neighbors(h) if k in kept and k != h and tpl[h][k]["order"][hs] > 0)
+        if dg > dh:
+            return 0
+    return 1
+
+
 def _impl_m(case):
     """[[plain observable, kept bit], matching stage]"""
     base = _impl_kept(case)
@@ -361,7 +376,7 @@ def _impl_m(case):
     nonneg = 1 if all(int(d.get("hcount", 0)) >= 0 for _, d in o["pat"].nodes(data=True)) else 0
     rawset = [S([K.map_obs(m) for m in o["raw"]])] if pre.get("chk_raw") else []
     kept = [[K.map_obs(m) for m in o["mappings"]]] if pre.get("raw") is not None else []
-    return [base, [nonneg, o["sep"], rawset, kept]]
+    return [base, [nonneg, o["sep"], _valence_py(o["tpl"], o["rule"], bool(case["invert"])), rawset, kept]]
 
 
 # ------------------------------------------------------------------ OPTION cases: embed_threshold / embed_pre_filter reach the engine
@@ -415,7 +430,8 @@ def _impl_opts(case):
     lv = _opts_level(case)
     if lv is None:
         return ["SKIP"]
-    return [lv["nonneg"], lv["sep"], [S([K.map_obs(m) for m in lv["raw"]])], [[K.map_obs(m) for m in lv["mappings"]]]]
+    return [lv["nonneg"], lv["sep"], _valence_py(lv["o"]["tpl"], lv["o"]["rule"], bool(case["invert"])),
+            [S([K.map_obs(m) for m in lv["raw"]])], [[K.map_obs(m) for m in lv["mappings"]]]]
 
 
 def _prepare_opts(case):
@@ -846,7 +862,7 @@ def _unwrap(case, obs):
         return ["SKIP"]
     if case.get("hist") and isinstance(obs, list) and len(obs) == 2 and isinstance(obs[0], list):
         obs = obs[0]
-    if isinstance(obs, list) and len(obs) == 2 and isinstance(obs[0], list) and isinstance(obs[1], list) and len(obs[1]) == 4:
+    if isinstance(obs, list) and len(obs) == 2 and isinstance(obs[0], list) and isinstance(obs[1], list) and len(obs[1]) == 5:
         obs = obs[0]          # drop the matching stage
     if isinstance(obs, list) and len(obs) == 2 and isinstance(obs[0], list) and obs[1] in (0, 1):
         obs = obs[0]
@@ -875,7 +891,7 @@ def distribution(cases, obss):
             oc = d.setdefault("option_cases", dict(cases=0, engine_returned_nothing=0, by_option={}))
             oc["cases"] += 1
             oc["by_option"][str(c["opts"])] = oc["by_option"].get(str(c["opts"]), 0) + 1
-            if len(o) == 4 and o[2] and not o[2][0].get("__set__"):
+            if len(o) == 5 and o[3] and not o[3][0].get("__set__"):
                 oc["engine_returned_nothing"] += 1
             continue
         if c.get("obj"):
@@ -892,17 +908,18 @@ def distribution(cases, obss):
             if o[0] and o[0][0] == "SKIP":
                 continue
             o = o[0]
-        if isinstance(o, list) and len(o) == 2 and isinstance(o[1], list) and len(o[1]) == 4 and isinstance(o[0], list):
+        if isinstance(o, list) and len(o) == 2 and isinstance(o[1], list) and len(o[1]) == 5 and isinstance(o[0], list):
             mt = d.setdefault("matching_stage", dict(raw_enumerated_by_model=0, pruning_by_model=0, pruned_away=0, identity_separating=0,
                                                       fewer_substrate_components=0, more_substrate_components=0))
-            mt["raw_enumerated_by_model"] += 1 if o[1][2] else 0
-            mt["pruning_by_model"] += 1 if o[1][3] else 0
+            mt["raw_enumerated_by_model"] += 1 if o[1][3] else 0
+            mt["pruning_by_model"] += 1 if o[1][4] else 0
+            mt["valence_ok"] = mt.get("valence_ok", 0) + o[1][2]
             mt["identity_separating"] += o[1][1][2]
             mt["fewer_substrate_components"] += 1 if o[1][1][0] < o[1][1][1] else 0
             mt["more_substrate_components"] += 1 if o[1][1][0] > o[1][1][1] else 0
             pre0 = c.get("pre") or {}
-            if o[1][3] and pre0.get("raw") is not None:
-                mt["pruned_away"] += max(0, len(pre0["raw"]) - len(o[1][3][0]))
+            if o[1][4] and pre0.get("raw") is not None:
+                mt["pruned_away"] += max(0, len(pre0["raw"]) - len(o[1][4][0]))
             o = o[0]
         if isinstance(o, list) and len(o) == 2 and isinstance(o[0], list) and o[1] in (0, 1):
             d["kept_regenerates"] = d.get("kept_regenerates", 0) + o[1]
@@ -1125,18 +1142,21 @@ def gen_cases(tier, rng):
     return prepare_all(cases)
 
 
-LEVEL_TEXT = ("Machine-checked proof (Coq) over an executable model of the round trip reaction -> template (ITS construction, reaction centre, "
-              "SynRule preparation, _invert_template) -> SynReactor object on the reaction's own reactants / products (pattern preparation, engine "
-              "call, pruning by rule automorphisms, _glue_graph, _explicit_h, its_list / smarts_list with their caches): for every balanced pair of "
-              "graphs written with implicit hydrogens, under C06's contract for the one VF2 enumeration of the exhaustive strategy, a fresh reactor "
-              "built from the own template has in its_list an ITS that decomposes to the reaction and, given RDKit's strings for its two sides, the "
-              "reaction string in smarts_list (turned round again when run backwards) - for the full ITS always and for the centre exactly when no "
-              "atom outside the centre changes charge or hydrogen count, forwards and backwards; in the default mode for reactions written with "
-              "explicit hydrogens the identity match, the gluing and the _explicit_h stage are proved (the re-materialised hydrogens fold back "
-              "exactly); reads of one reactor object in any order and number equal fresh reads; the pruning premise holds for any raw list "
-              "(C11) with canonical attribute codes proved faithful; strategies comp / bt are refuted by a witness. The model is tied to the Python "
-              "code by comparing every intermediate graph, the raw and kept matches and the value of every read on corpus reactions, their "
-              "atom-map renumberings and SMILES rewritings on every run; the property itself is run end to end by an independent oracle.")
+LEVEL_TEXT = ("Machine-checked proof (Coq, 30 theorems) over an executable model of the round trip reaction -> template (ITS construction, reaction centre, "
+              "SynRule preparation, _invert_template) -> SynReactor OBJECT on the reaction's own reactants / products (options, pattern preparation, "
+              "engine call through C06's model of find_subgraph_mappings, pruning by rule automorphisms through C11's model, _glue_graph, _explicit_h, "
+              "its_list / smarts_list with their caches, reverse_reaction). Strategy ALL, both branches of the precondition: under C06's contract for "
+              "the one VF2 enumeration a fresh reactor built from the own template has in its_list an ITS that decomposes to the reaction - implicit "
+              "mode: exactly, and given RDKit's strings for its sides the reaction string is in smarts_list (turned round again backwards); default "
+              "mode (explicit centre hydrogens): in implicit-hydrogen normal form after _strip_explicit_h, gluing and _explicit_h (the re-materialised "
+              "hydrogens fold back exactly), provided _explicit_h does not raise - for the full ITS always and for the centre exactly when no atom outside "
+              "the centre changes charge or hydrogen count, forwards and backwards. Strategies comp / bt: proved to regenerate whenever the substrate has "
+              "fewer components than the pattern or the identity separates the pattern components (bt also in the strict_cc_count guard region), and "
+              "REFUTED otherwise by a witness (known finding). Reads of one reactor object in any order and number equal fresh reads (and the exact stale "
+              "state after a StopIteration is described). The model is tied to the Python code by comparing every intermediate graph, the raw matches "
+              "(enumerated by the model's verified enumerator under the same options), the kept mappings and the VALUE of every read of reactor objects "
+              "on corpus reactions, their atom-map renumberings and SMILES rewritings on every run; the property itself is run end to end by an "
+              "independent oracle.")
 LEVEL_NOTE = ("Trusted: Coq kernel + vm_compute; the hand-written models and harness encoders; RDKit parsing / serialisation and VF2 matching are oracle "
               "inputs (raw matches compared with the model's verified enumeration when small). Tested, not proved: in the default mode that _explicit_h "
               "does not raise on the glued ITS and that the identity passes the matcher's predicates on the stripped pattern (both compared per "
